@@ -76,12 +76,11 @@ func (context *CHFContext) NewCHFUe(supi string) (*ChfUe, error) {
 	if isImsiSupi(supi) {
 		ue := ChfUe{}
 		ue.init()
+		ue.Supi = supi
 
-		if supi != "" {
-			context.AddChfUeToUePool(&ue, supi)
-		}
-
-		return &ue, nil
+		// two first requests of one subscriber may arrive together: both must end up with the same context
+		actual, _ := context.UePool.LoadOrStore(supi, &ue)
+		return actual.(*ChfUe), nil
 	} else {
 		return nil, fmt.Errorf(" add Ue context fail ")
 	}
